@@ -14,7 +14,10 @@ input (`nonce`: what crypto/rand yields if a request is generated); the session 
 derivation itself is C09); the PreLogin subscribers' verdict for a username, the number of login plugin messages they
 send during the PreLogin event (answered late or never: the completion of the login start is DEFERRED until the
 client has answered them all — the loginInboundConn machinery of C13) and the online-mode flag are `Cfg`.
-Player keys (1.19–1.19.2 only) are not modelled: the connection carries no key (`playerKey = nil`).
+Player keys (1.19–1.19.2 only, `Cfg.keyEra`): the login start carries no key, or a key that is valid / expired /
+wrongly signed (Mojang's signature over the key is a parameter: `KeyClass`); in that era an encryption response may
+carry a salt + signature instead of the encrypted token (`salt`), whose verification against the client's key is the
+parameter `sigOk`.  Which of the two verify-token checks applies is decided by the KEY, never by the response.
 -/
 namespace Gate.C08
 open Gate
@@ -23,11 +26,18 @@ inductive PreLogin where
   | allowed | denied | forceOnline | forceOffline
   deriving DecidableEq, Repr
 
+/-- the profile key of a 1.19–1.19.2 login start -/
+inductive KeyClass where
+  | none | valid | expired | invalid
+  deriving DecidableEq, Repr
+
 structure Cfg where
   onlineMode  : Bool
   preLogin    : Bytes → PreLogin      -- verdict of the PreLogin subscribers for this username
   preMsgs     : Bytes → Nat           -- login plugin messages they send (SendLoginPluginMessage) during the event
   compression : Bool := true          -- cfg.Compression.Threshold >= 0: a SetCompression precedes LoginSuccess
+  keyEra      : Bool := false         -- protocol 1.19 – 1.19.2: login starts may carry a key, responses a salt
+  forceKeyAuth : Bool := true         -- cfg.ForceKeyAuthentication
 
 inductive JoinResult where
   | online        -- 200 with a usable profile
@@ -40,15 +50,17 @@ structure Env where
   sess : Bytes → Bytes → JoinResult     -- username, decrypted shared secret
 
 inductive In where
-  | login (name : Bytes) (nonce : Bytes)                -- ServerLogin{Username}
-  | encResp (tok : Option Bytes) (secret : Option Bytes) -- EncryptionResponse: RSA decryptions of VerifyToken / SharedSecret
+  | login (name : Bytes) (nonce : Bytes) (key : KeyClass) -- ServerLogin{Username, PlayerKey}
+  | encResp (tok : Option Bytes) (secret : Option Bytes) (salt : Bool) (sigOk : Bool)
+      -- EncryptionResponse: RSA decryptions of VerifyToken / SharedSecret; `salt`: the salted form (Salt != nil);
+      -- `sigOk`: playerKey.VerifyDataSignature(VerifyToken, l.verify, salt) would hold
   | pluginResp (id : Int)                               -- LoginPluginResponse{id}
   | ack                                                 -- LoginAcknowledged
   | other                                               -- any other known packet, or an unknown packet id
   deriving DecidableEq, Repr
 
 inductive Reason where
-  | badName | denied | internal | unable | onlineOnly | invalidPlayerData
+  | badName | denied | internal | unable | onlineOnly | invalidPlayerData | keyExpired | keyInvalid | keyMissing
   deriving DecidableEq, Repr
 
 inductive Out where
@@ -82,6 +94,7 @@ structure St where
   name   : Bytes := []     -- l.login.Username
   verify : Bytes := []     -- l.verify (the token the completion will issue)
   outstanding : List Int := []   -- loginInboundConn.outstandingResponses (ids)
+  hasKey : Bool := false         -- l.inbound.IdentifiedKey() != nil
   deriving DecidableEq, Repr
 
 /-- playerNameRegex `^[A-Za-z0-9_]{2,16}$` on a Go string (bytes ≥ 0x80 are never in the class) -/
@@ -116,13 +129,28 @@ def complete (cfg : Cfg) (s : St) : St × List Out :=
   if needsAuth cfg s.name then ({ s with phase := .encSent, outstanding := [] }, [.encReq s.verify])
   else ({ s with phase := .successSent, outstanding := [] }, admitSeq cfg s.name false)
 
+/-- the key as decoded: only 1.19 – 1.19.2 login starts carry one -/
+def effKey (cfg : Cfg) (key : KeyClass) : KeyClass := if cfg.keyEra then key else .none
+
+/-- the key checks of handleServerLogin: expired / wrongly signed key, or no key although keys are forced -/
+def keyReject (cfg : Cfg) (key : KeyClass) : Option Reason :=
+  match effKey cfg key with
+  | .expired => some .keyExpired
+  | .invalid => some .keyInvalid
+  | .none => if cfg.keyEra && cfg.forceKeyAuth then some .keyMissing else none
+  | .valid => none
+
 /-- handleServerLogin in state loginPacketExpected -/
-def loginStep (cfg : Cfg) (name nonce : Bytes) : St × List Out :=
+def loginStep (cfg : Cfg) (name nonce : Bytes) (key : KeyClass) : St × List Out :=
   if !decodable name then closeWith [.close]
   else if !validName name then closeWith [.disconnect .badName]
-  else if cfg.preLogin name == .denied then closeWith [.preLoginEvent name, .disconnect .denied]
+  else match keyReject cfg key with
+  | some r => closeWith [.disconnect r]
+  | none =>
+  if cfg.preLogin name == .denied then closeWith [.preLoginEvent name, .disconnect .denied]
   else
-    let s' : St := { phase := .waiting, name := name, verify := nonce, outstanding := msgIds (cfg.preMsgs name) }
+    let s' : St := { phase := .waiting, name := name, verify := nonce, outstanding := msgIds (cfg.preMsgs name),
+                     hasKey := effKey cfg key == .valid }
     if cfg.preMsgs name == 0 then ((complete cfg s').1, .preLoginEvent name :: (complete cfg s').2)
     else (s', .preLoginEvent name :: (msgIds (cfg.preMsgs name)).map .pluginMsg)
 
@@ -134,10 +162,16 @@ def pluginStep (cfg : Cfg) (s : St) (id : Int) : St × List Out :=
     else ({ s with outstanding := rest }, [.consumed id])
   else (s, [])
 
+/-- the verify-token check: WHICH check applies is decided by the connection's key, not by the form of the
+    response — with a key: the response must be salted and the signature over (token, salt) must verify;
+    without a key: the token field must decrypt to exactly the issued token (a salt, if any, is irrelevant) -/
+def tokenOk (s : St) (tok : Option Bytes) (salt sigOk : Bool) : Bool :=
+  if s.hasKey then salt && sigOk else tok == some s.verify
+
 /-- handleEncryptionResponse in state encryptionRequestSent -/
-def encStep (cfg : Cfg) (env : Env) (s : St) (tok secret : Option Bytes) : St × List Out :=
+def encStep (cfg : Cfg) (env : Env) (s : St) (tok secret : Option Bytes) (salt sigOk : Bool) : St × List Out :=
   if s.verify.isEmpty then closeWith [.close]
-  else if tok != some s.verify then closeWith [.close]          -- Verify error or mismatch
+  else if !tokenOk s tok salt sigOk then closeWith [.close]     -- no salt with a key / bad signature / Verify error or mismatch
   else match secret with
     | none => closeWith [.close]                                 -- DecryptSharedSecret error
     | some sec =>
@@ -150,15 +184,15 @@ def encStep (cfg : Cfg) (env : Env) (s : St) (tok secret : Option Bytes) : St ×
           ({ s with phase := .successSent }, [.encOn sec, .hasJoined s.name sec] ++ admitSeq cfg s.name true)
 
 def step (cfg : Cfg) (env : Env) (s : St) : In → St × List Out
-  | .login name nonce =>
+  | .login name nonce key =>
     match s.phase with
     | .closed | .config => (s, [])
-    | .expect => loginStep cfg name nonce
+    | .expect => loginStep cfg name nonce key
     | _ => closeWith [.close]                    -- assertState (also while the completion is deferred) / auth handler default
-  | .encResp tok secret =>
+  | .encResp tok secret salt sigOk =>
     match s.phase with
     | .closed | .config => (s, [])
-    | .encSent => encStep cfg env s tok secret
+    | .encSent => encStep cfg env s tok secret (cfg.keyEra && salt) sigOk
     | _ => closeWith [.close]
   | .pluginResp id =>
     match s.phase with
